@@ -38,4 +38,22 @@ CLAIMS = {
         "note": COMMON_NOTE + "Date value: IMF-fixdate syntax predicate (Lean) and skew <= 2 s (harness) are checked on the implementation's output, not proved.",
         "technique": "Lean 4 proof (induction over the add_header fold) + differential correspondence on random header lists/constructors",
     },
+    "C12": {
+        "text": "Theorems last_request_decision (the code's persistence flag equals the statement read literally, for 1.0/1.1 and every Connection value, outside the one "
+                "contradictory corner), nothing_after_last (after a last request no further byte is interpreted, then close with everything flushed), stays_open, "
+                "close_after_client_eof, trace_extends_state — over the connection-loop model, for all byte streams, scripts and pipeline lengths. Tied to the code by running "
+                "pipelines with every Connection-header variant through the real server over loopback (half-close and open mode) and comparing delivered requests, the wire "
+                "bytes and EOF with the model; the declarative expectation is evaluated on the implementation's observations.",
+        "design_ref": "6 (C12), 5 (M1)",
+        "note": COMMON_NOTE + "Sequential application in the model; ordering among concurrent handlers is C01. OS-level shutdown(Write)/EOF delivery is observed, not proved.",
+        "technique": "Lean 4 proof (case analysis on the persistence decision, one-step unfolding and induction over the connection loop) + differential correspondence over loopback sockets",
+    },
+    "C18": {
+        "text": "Theorems continue_exactly_once (the messages generated for a request are: one 100 iff Expect: 100-continue and the application asked for the body at least once, "
+                "before the final response), continue_is_flushed, expect_recognised (any letter case), no_expect_no_continue, expect_body_not_preread. Tied to the code with a "
+                "two-phase client that withholds the body until the server has sent something.",
+        "design_ref": "6 (C18)",
+        "note": COMMON_NOTE + "The client-side waiting is real (loopback); promptness is observed with a 1 s bound, not proved.",
+        "technique": "Lean 4 proof (unfolding of the request life-cycle model) + differential correspondence with a withholding client",
+    },
 }
